@@ -165,6 +165,47 @@ func (s *Module) IsActive() bool {
 		// Only one %w can be used.
 		return fmt.Errorf("%w: %w", ErrPolicy, policyErr)
 	}""")])]),
+ ("twin-statements-swapped", ["C09", "C02"], "PersistPrivate / putChangeSet: the twin statements for mem and stor swapped",
+  [("pkg/core/storage/memory_store.go", [("""	maps.Copy(s.mem, puts)
+	maps.Copy(s.stor, stores)""", """	maps.Copy(s.stor, stores)
+	maps.Copy(s.mem, puts)""")]), ("pkg/core/storage/memcached_store.go", [("keys += len(p.mem) + len(p.stor)", "keys += len(p.stor) + len(p.mem)")])]),
+ ("historic-window-nested-guard", ["C03", "C06", "C07", "C02"], "GetTestHistoricVM: the window test written with nested ifs and other local names",
+  [("pkg/core/blockchain.go", [("""		if h, mtb := bc.BlockHeight(), bc.GetMaxTraceableBlocks(); h > mtb && b.Index < h-mtb {
+			return nil, fmt.Errorf("state for height %d is outdated and removed from the storage", b.Index)
+		}""", """		tip, window := bc.BlockHeight(), bc.GetMaxTraceableBlocks()
+		if tip > window {
+			if b.Index < tip-window {
+				return nil, fmt.Errorf("state for height %d is outdated and removed from the storage", b.Index)
+			}
+		}""")])]),
+ ("ledger-guard-split", ["C01"], "Ledger.getTransactionSigners: the combined error/traceability test split into two ifs",
+  [("pkg/core/native/ledger.go", [("""	tx, h, err := getTransactionAndHeight(ic.DAO, params[0])
+	if err != nil || !l.isTraceableBlock(ic, h) {
+		return stackitem.Null{}
+	}
+	return transaction.SignersToStackItem(tx.Signers)""", """	tx, h, err := getTransactionAndHeight(ic.DAO, params[0])
+	if err != nil {
+		return stackitem.Null{}
+	}
+	if !l.isTraceableBlock(ic, h) {
+		return stackitem.Null{}
+	}
+	return transaction.SignersToStackItem(tx.Signers)""")])]),
+ ("tally-store-via-local", ["C05", "C01"], "ModifyAccountVotes: the final store goes through a local error variable",
+  [("pkg/core/native/native_neo.go", [("""		return d.PutStorageConvertible(n.ID, key, cd)
+	}
+	return nil
+}
+
+func (n *NEO) getCandidates(""", """		putErr := d.PutStorageConvertible(n.ID, key, cd)
+		return putErr
+	}
+	return nil
+}
+
+func (n *NEO) getCandidates(""")])]),
+ ("isblocked-nil-test-reordered", ["C01", "C05"], "Policy.IsBlocked: the storage fallback written with a local and `nil != item`",
+  [("pkg/core/native/policy.go", [("return dao.GetStorageItem(p.ID, key) != nil", "item := dao.GetStorageItem(p.ID, key)\n\t\treturn nil != item")])]),
 ]
 
 out = "/verif/benign"
